@@ -11,7 +11,7 @@ for b in blocks:
     n, demo_dir, tags = m.group(2), m.group(3), m.group(4)
     ok = all(x in b for x in ("1. demo on HEAD: rc=0 PASS", "FAILS (as wanted)", "2b. existing tests with patch")) and "rc=0 PASS" in b.split("2b.")[1].split("\n")[0]
     det = re.search(r"3\. check: rc=1 .*VIOLATED", b)
-    sigs = re.search(r"sigs=\[(.*?)\]", b)
+    sigs = re.search(r"sigs=\[(.*)", b)
     sigl = [s.strip("' ") for s in sigs.group(1).split(",")][:3] if sigs and sigs.group(1) else []
     notes = open(os.path.join(src, "notes_%s.md" % n)).read()
     body = [l for l in notes.splitlines() if l.strip() and not re.match(r"`?(demo_dir|demo_tags|test_pkgs)", l.strip())]
